@@ -27,7 +27,17 @@ func renderChannel(c *girc.Channel) string {
 	if c == nil {
 		return "nil"
 	}
-	return fmt.Sprintf("%s|%s|%q|%s", c.Name, c.Topic, c.UserList, c.Modes.String())
+	// (Modes through BOTH readers: the rendered string and the per-mode lookups)
+	var args []string
+	for _, m := range "klbeIfjqaohvimnpst" {
+		if a, ok := c.Modes.Get(string(m)); ok {
+			args = append(args, string(m)+"="+a)
+		}
+		if c.Modes.HasMode(string(m)) {
+			args = append(args, string(m)+"!")
+		}
+	}
+	return fmt.Sprintf("%s|%s|%q|%s|%v", c.Name, c.Topic, c.UserList, c.Modes.String(), args)
 }
 
 type snapSet struct {
